@@ -47,8 +47,9 @@ ASSUMPTIONS = [
     "a cancelled subscriber future that stays in ResponseDemux until the next publish/break is not counted as a "
     "violation (no documented promise); only pending subscribers left behind are",
 ]
-MIN_EVAL = {"collector:history": 300, "stream:retry-protocol": 300, "stream:future-outcome": 150,
-            "pauli-sum:estimate": 10, "batch:history": 20, "retry-table": 30}
+MIN_EVAL = {"collector:history": 4000, "collector:exactly-once-delivery": 20000, "stream:retry-protocol": 12000,
+            "stream:future-outcome": 6000, "stream:bounded-progress": 12000, "stream:cancel-rpc": 500,
+            "pauli-sum:estimate": 400, "batch:history": 700, "retry-table": 30}
 MUST_REACH = [
     "cirq/work/collector.py:Collector.collect",
     "cirq/work/collector.py:Collector.collect_async",
@@ -112,6 +113,11 @@ def _report(ctx, bad, monitors, witness):
 
 
 def setup(ctx):
+    if ctx.tier != "quick":
+        import sys
+        # thread-interleaving stress for the caller-thread entry points (submit / stop / future.cancel): the caller
+        # thread and the event-loop thread are switched ~500x more often than by default
+        sys.setswitchinterval(1e-5)
     S, C = DC.make_fakes()
     _S["Sampler"], _S["Collector"] = S, C
     _S["exh_done"] = {"collector": True, "stream": True}
@@ -894,10 +900,10 @@ def sec_retry_table(ctx, rng, case):
 
 SECTIONS = [
     ("collector_exhaustive", sec_collector_exhaustive, 240, 344, 1.2),
-    ("collector_random", sec_collector_random, 14000, 200000, 1.2),
-    ("pauli_sum", sec_pauli_sum, 2800, 40000, 0.5),
-    ("batch", sec_batch, 4200, 60000, 0.5),
+    ("collector_random", sec_collector_random, 14000, 300000, 1.2),
+    ("pauli_sum", sec_pauli_sum, 2800, 60000, 0.5),
+    ("batch", sec_batch, 4200, 80000, 0.5),
     ("retry_table", sec_retry_table, 30, 30, 0.05),
     ("stream_exhaustive", sec_stream_exhaustive, 777, 777, 2.0),
-    ("stream_random", sec_stream_random, 7000, 100000, 2.0),
+    ("stream_random", sec_stream_random, 7000, 150000, 2.0),
 ]
